@@ -323,3 +323,33 @@ func (j MinJob) build(t tabular.Table) {
 		t.AddRowItems(items...)
 	}
 }
+
+// ---- items that use the library themselves
+
+// nestedTableItem is a cell item which holds a small table of its own: its text is that table rendered as text, its
+// JSON form is that table rendered as JSON.  Rendering the outer table therefore renders the inner one from inside
+// the item's String / MarshalJSON - a re-entrant use of the library on one goroutine, with nothing shared but the
+// package.
+type nestedTableItem struct {
+	sub tabular.Table
+}
+
+func newNestedTableItem(a, b string) *nestedTableItem {
+	t := tabular.New()
+	t.AddHeaders("inner key", "inner value")
+	t.AddRowItems(a, b)
+	return &nestedTableItem{sub: t}
+}
+
+func (n *nestedTableItem) String() string {
+	s, err := texttable.Wrap(n.sub).SetDecoration(decoration.ASCIIBoxSimple()).Render()
+	if err != nil {
+		return "nested table: " + err.Error()
+	}
+	return strings.TrimRight(s, "\n")
+}
+
+func (n *nestedTableItem) MarshalJSON() ([]byte, error) {
+	s, err := json.Render(n.sub)
+	return []byte(s), err
+}
